@@ -237,7 +237,7 @@ def run_world(w: World, only=None):
                 shared.append("model")
             ols = getattr(sm, "_listeners", None)
             if isinstance(ls, (dict, list)) and isinstance(ols, (dict, list)):
-                if {id(x) for x in ls} & {id(x) for x in ols}:
+                if {id(x) for x in ls} & {id(x) for x in ols} and m.scn.listener_kind != "singleton":
                     shared.append("listener")
                 if len(ls) != len(ols):
                     shared.append(f"listeners:{len(ols)}->{len(ls)}")
